@@ -102,7 +102,10 @@ def r12_2(ctx, fx):
                detail="channel calls: %s" % [(short(c.name), fn.origin(c.args[0])) for c in cs])
         blocking = [c for c in fn.calls() if c.matches(r"blocking_send$|block_on$|::reserve$|Sender(<.*>)?::send$|thread::sleep$") and not c.from_macro]
         ctx.ob("R12.2", "NotificationSink::send_sync_notification/no-waiting-call", not blocking, site=fn.site(fn.entry), cfg=fx.cfg, detail=str(blocking))
-        cl = ctx.fn(fx, key + "::{closure#0}", "R12.2")
+        # the error mapping lives in the `map_err` closure, or - spelled as a `match` on the try_send result - in the function itself
+        cl = ctx.fn(fx, key + "::{closure#0}", "R12.2", required=False)
+        if cl is None or not [sw for sw in cl.discr_switches() if sw[2] and sw[2].endswith("TrySendError")]:
+            cl = fn
         if cl is not None:
             sws = [sw for sw in cl.discr_switches() if sw[2] and sw[2].endswith("TrySendError")]
             ctx.anchor("R12.2", "send_sync_notification: match on TrySendError", len(sws), 1, cfg=fx.cfg)
@@ -135,7 +138,7 @@ def r12_2(ctx, fx):
                 shapes |= dict(fn.exits())[n]
             ok = shapes == {"Err.ChannelClogged"} or all(s.startswith("Err") and "ChannelClogged" in s for s in shapes) and bool(shapes)
             ctx.ob("R12.2", "NotificationHandle::send_sync_notification/clogged-is-reported", ok, site=fn.site(sw[0]), cfg=fx.cfg, detail=str(sorted(shapes)))
-            fc = cl is not None and any(s["rv"].get("var") == "ForceClose" for n, s in cl.aggregates(r"NotificationCommand$"))
+            fc = any(s["rv"].get("var") == "ForceClose" for h in (cl, fn) if h is not None for n, s in h.aggregates(r"NotificationCommand$"))
             ins = [c for c in fn.calls(r"HashSet(<.*>)?::insert$") if ".clogged" in fn.origin(c.args[0]) and c.node in r]
             ctx.ob("R12.2", "NotificationHandle::send_sync_notification/clogged-peer-is-force-closed", bool(fc) and bool(ins), site=fn.site(sw[0]), cfg=fx.cfg)
     fn = ctx.fn(fx, H + "NotificationSink::send_async_notification::{closure#0}", "R12.2")
